@@ -41,7 +41,7 @@ ASSUMPTIONS = [
 ]
 MODES = ['always', 'nonlocal', 'remote', 'never']
 KINDS = ['str', 'bytes', 'StringIO', 'BytesIO', 'binary_file', 'nonseek_buffered', 'nonseek_raw', 'path',
-         'file_url', 'remote_url', 'text_remote_base']
+         'file_url', 'remote_url', 'text_remote_base', 'remote_url_local_base', 'path_remote_base']
 _EVENTS = None
 _HOOKED = False
 
@@ -120,8 +120,10 @@ def applies(mode, kind):
         return True
     if mode == 'never':
         return False
-    local_file = kind in ('path', 'file_url', 'binary_file')
-    remote = kind in ('remote_url', 'text_remote_base')
+    # a source that has its OWN location is judged by that location, whatever base_url says (a remote schema
+    # included by a local one is still remote); base_url only stands in for sources without a location
+    local_file = kind in ('path', 'file_url', 'binary_file', 'path_remote_base')
+    remote = kind in ('remote_url', 'text_remote_base', 'remote_url_local_base')
     if mode == 'remote':
         return remote
     if mode == 'nonlocal':
@@ -177,15 +179,20 @@ class Env:
             return NonSeekRaw(data), {}, None
         if kind == 'text_remote_base':
             return text, {'base_url': 'http://stub/dir/'}, None
-        if kind == 'remote_url':
+        if kind in ('remote_url', 'remote_url_local_base'):
             name = 'd%d.xml' % self.n
             Stub.table[name] = data
-            return 'http://stub/' + name, {'opener': self.opener}, None
+            kw = {'opener': self.opener}
+            if kind == 'remote_url_local_base':
+                kw['base_url'] = self.dir
+            return 'http://stub/' + name, kw, None
         p = os.path.join(self.dir, 'd%d.xml' % self.n)
         with open(p, 'wb') as f:
             f.write(data)
         if kind == 'path':
             return p, {}, None
+        if kind == 'path_remote_base':
+            return p, {'base_url': 'http://stub/dir/'}, None
         if kind == 'file_url':
             return 'file://' + p, {}, None
         if kind == 'binary_file':
@@ -199,8 +206,11 @@ def tree_canon(e):
             tuple(tree_canon(c) for c in e))
 
 
+MULTIBYTE = ('shift_jis', 'euc-jp', 'big5', 'gb2312')     # the scanner (expat) cannot read them at all
+
+
 def run_instance(env, mode, kind, prolog, body_ref, has_decl, encoding='utf-8', bom=False, pad='', st=None,
-                 label=''):
+                 label='', lxml_parser=False):
     """One cell: instance role.  Returns violation records."""
     global _EVENTS
     out = []
@@ -221,6 +231,9 @@ def run_instance(env, mode, kind, prolog, body_ref, has_decl, encoding='utf-8', 
     _EVENTS = []
     try:
         try:
+            if lxml_parser:
+                import lxml.etree as LET
+                kw = dict(kw, iterparse=LET.iterparse)
             r = XMLResource(src, defuse=mode, **kw)
             outcome = 'parsed'
             root_text = ''.join(r.root.itertext())
@@ -240,7 +253,7 @@ def run_instance(env, mode, kind, prolog, body_ref, has_decl, encoding='utf-8', 
     inp = {'role': 'instance', 'mode': mode, 'kind': kind, 'label': label, 'encoding': encoding, 'bom': bom,
            'doc': text if len(text) < 2000 else text[:300] + '...[%d chars]...' % len(text) + text[-300:],
            'prolog': prolog, 'body_ref': body_ref, 'has_decl': has_decl, 'pad_len': len(pad),
-           'pad_head': pad[:40]}
+           'pad_head': pad[:40], 'lxml_parser': lxml_parser}
     key = '%s|%s|%s|%016x' % (mode, kind, 'instance', core.h64(data))
 
     def rec(k, exp, obs):
@@ -249,13 +262,16 @@ def run_instance(env, mode, kind, prolog, body_ref, has_decl, encoding='utf-8', 
     if app and has_decl:
         if st is not None and (pad or kind.startswith('nonseek')):
             st.nt(key)
-        if outcome != 'forbidden':
+        if outcome != 'forbidden' and not (encoding in MULTIBYTE and outcome == 'lib:XMLResourceParseError'):
+            # (an encoding the scanner cannot read: refusing the whole document with a parse error is a refusal too)
             if big_nonseek and outcome == 'lib:XMLResourceOSError':
                 st and st.cls('nonseekable_big_prolog_not_rewindable')
             else:
                 out.append(rec('not_refused', 'XMLResourceForbidden', outcome))
         if ev:
             out.append(rec('external_fetch_before_refusal', 'canary never opened', ev[:2]))
+    elif app and not has_decl and encoding in MULTIBYTE:
+        st and st.cls('clean_multibyte_document_not_asserted:' + outcome.split(':')[0])
     elif app and not has_decl:
         if st is not None and kind.startswith('nonseek'):
             st.nt(key)
@@ -273,7 +289,7 @@ def run_instance(env, mode, kind, prolog, body_ref, has_decl, encoding='utf-8', 
     else:
         if st is not None:
             st.cls('not_applicable_cell:' + outcome.split(':')[0])
-    if outcome.startswith('OTHER') and not (encoding != 'utf-8'):
+    if outcome.startswith('OTHER'):
         out.append(rec('non_library_exception', 'library exception or success', outcome))
     return out
 
@@ -368,6 +384,11 @@ def run_shard(desc):
             P = env.payloads()
             for kind in KINDS:
                 for pname, (prolog, ref, has_decl) in P.items():
+                    if kind in ('bytes', 'BytesIO', 'binary_file', 'path'):
+                        # byte sources through lxml's iterparse, which can read encodings the scanner cannot
+                        for enc in ('utf-8', 'iso-8859-1') + MULTIBYTE[:2]:
+                            for r in run_instance(env, mode, kind, prolog, ref, has_decl, enc, False, '', st, pname, True):
+                                core.report(st, PROPERTY, r)
                     for enc, bom in (('utf-8', False), ('utf-8', True), ('utf-16', True), ('iso-8859-1', False)):
                         for r in run_instance(env, mode, kind, prolog, ref, has_decl, enc, bom, '', st, pname):
                             core.report(st, PROPERTY, r)
@@ -389,13 +410,17 @@ def run_shard(desc):
             strat = hst.tuples(hst.sampled_from(MODES), hst.sampled_from(KINDS), hst.sampled_from(sorted(P)),
                                hst.lists(pad_piece, max_size=4).map(''.join),
                                hst.sampled_from([('utf-8', False), ('utf-8', True), ('utf-16', True),
-                                                 ('iso-8859-1', False)]))
+                                                 ('iso-8859-1', False), ('shift_jis', False), ('big5', False),
+                                                 ('euc-jp', False)]),
+                               hst.booleans())
 
             def body(v, st_):
-                mode, kind, pname, pad, (enc, bom) = v
+                mode, kind, pname, pad, (enc, bom), lx = v
                 prolog, ref, has_decl = P[pname]
                 st_.sample({'mode': mode, 'kind': kind, 'payload': pname, 'pad_len': len(pad), 'encoding': enc}, cap=4)
-                return run_instance(env, mode, kind, prolog, ref, has_decl, enc, bom, pad, st_, pname)
+                if lx and kind not in ('bytes', 'BytesIO', 'binary_file', 'path', 'file_url', 'path_remote_base'):
+                    lx = False        # lxml's iterparse needs byte sources (and opens URLs by itself)
+                return run_instance(env, mode, kind, prolog, ref, has_decl, enc, bom, pad, st_, pname, lx)
             core.hyp_drive(st, PROPERTY, strat, body, n, core.derive_seed(seed, 'C13', k))
     finally:
         env.close()
@@ -413,7 +438,7 @@ def replay(record):
             prolog, ref, has_decl = P[inp['label']]
             pad = inp.get('pad_head', '') if inp.get('pad_len', 0) <= 40 else '<!--' + 'y' * inp['pad_len'] + '-->'
             recs = run_instance(env, inp['mode'], inp['kind'], prolog, ref, has_decl, inp.get('encoding', 'utf-8'),
-                                inp.get('bom', False), pad, st, inp['label'])
+                                inp.get('bom', False), pad, st, inp['label'], inp.get('lxml_parser', False))
         else:
             recs = run_schema(env, inp['mode'], inp['role'], inp['label'], st)
             recs = [r for r in recs if r['input']['kind'] == inp['kind']]
